@@ -155,13 +155,22 @@ PROPS["C19"] = {
     "assumptions": ["revm constructors keep what they are given (shim contracts)", "N32: generic revm types replaced by shim structs with the same field names"],
 }
 
+PROPS["C14"] = {
+    "units": [],
+    "kani": ["u64_roundtrip", "u64_order", "u32_roundtrip", "u64ed_matches_u64", "option_u64_roundtrip", "tuple_u64_u32_roundtrip"],
+    "kani_thorough": ["u128ed_roundtrip", "u128ed_order", "nidx_key_order"],
+    "level_text": "Complete CBMC proofs (all 2^64 / 2^128 values, unwinding assertions on) on the REAL codec files included by path: u64/u32 big-endian round trip with exact consumption inside a larger buffer, u64 order and injectivity of the encoding, U64ED encoding identical to u64 (block tables mix them), U128ED round trip and order, (block,index) composite key order, Option tag byte, tuple concatenation.",
+    "level_note": "Trusted: CBMC 6.11 / Kani 0.68 models of alloc and core, alloy-primitives 1.4.1 Uint::{as_limbs,from_limbs,from} as compiled. Harnesses are loop-free or bounded by the constant encoding width with unwinding assertions, hence complete, not bounded. NOT covered yet: Vec/String/struct codecs (variable length), BlockHistoryCacheData codec, U256/U512/Address/B256 (planned), the serde/JSON half of the statement.",
+    "assumptions": ["variable-length codecs (Vec, String, structs) not yet under proof", "serde/JSON round trip outside both tools"],
+}
+
 NOT_APPLICABLE = {
     "C07": "conservation is a property of Solidity/EVM bytecode executed by revm; neither Verus nor Kani has a semantics for it, no contract within reach can state it",
     "C10": "non-mutation is the frame condition of revm's replay/transact_one inside async fns; it could only be assumed, not proved, on code within reach",
     "C11": "quantifies over thread schedules; Kani has no threads, Verus would need permission types threaded through the code (different code)",
     "C17": "relational equivalence of two entry points of an external interpreter over arbitrary bytecode; no contract on code within reach expresses it",
 }
-PENDING = ["C14"]
+PENDING = []
 for _p in PENDING:
     if _p not in PROPS:
         NOT_APPLICABLE[_p] = "check under construction in this commit (DESIGN.md 0); claimed once its units discharge"
